@@ -30,7 +30,7 @@ def answerScript (toks : List String) : String :=
 
 /-! ### `block`: parse one block and dump every field (same format as the hook) -/
 def dumpBlock (ver : UInt8) (size : Nat) (b : Csv.RBlock) (a : Option Aux.RAux) : Option String :=
-  match M.root A.sha256d (b.txs.map CB.txid) with
+  match M.rootRust A.sha256d (b.txs.map CB.txid) with
   | none => none
   | some root =>
     let h := b.header
@@ -61,11 +61,75 @@ def answerBlock (toks : List String) : String :=
         | some d => s!"ok {r.length} {d}"
   | _ => "bad-request"
 
+def answerVarint (toks : List String) : String :=
+  let bs := match toks with | [h] => parseHex h | _ => []
+  match VI.dec 0 bs with
+  | .ok n r => s!"ok {n} {bs.length - r.length}"
+  | .eof => "eof"
+  | .panic => "PANIC"
+
+def answerRecord (toks : List String) : String :=
+  let (k, v) := match toks with | [k, v] => (parseHex k, parseHex v) | [k] => (parseHex k, []) | _ => ([], [])
+  match k with
+  | [] => "PANIC"
+  | b :: _ =>
+    if b ≠ 0x62 then "foreign" else
+    match Run.decodeRecFull k v with
+    | .ok f => s!"ok {Csv.hashHex f.r.hash} {f.version} {f.r.height} {f.r.status} {f.ntx} {f.r.file} {f.r.off}"
+    | .err _ => "eof"
+    | .panic _ => "PANIC"
+
+def answerBlkname (toks : List String) : String :=
+  let bs := match toks with | [h] => parseHex h | _ => []
+  match String.fromUTF8? (ByteArray.mk bs.toArray) with
+  | none => "PANIC"
+  | some name => match Run.parseBlkIndex name with | some n => s!"some {n}" | none => "none"
+
+def answerCompact (toks : List String) : String :=
+  let bs := match toks with | [h] => parseHex h | _ => []
+  match W.readVarUint bs with
+  | some (v, r) => s!"ok {v.value} {fieldHex v.raw} {bs.length - r.length}"
+  | none => "eof"
+
+/-- `xor <key> <cap> <data> <op>*`: the XorReader machine of the model over a positional reader (capacity is irrelevant to the model) -/
+def answerXor (toks : List String) : String :=
+  match toks with
+  | k :: _cap :: d :: ops =>
+    let key := parseHex k
+    let data := parseHex d
+    let step (st : Nat × List String) (op : String) : Nat × List String :=
+      let n := (op.drop 1).toString.toNat!
+      if op.startsWith "s" then (n, st.2)
+      else
+        let chunk := (data.drop st.1).take n
+        let plain := if key.isEmpty then chunk else X.xorAt key st.1 chunk
+        (st.1 + chunk.length, st.2 ++ [fieldHex plain])
+    "|".intercalate (ops.foldl step (0, [])).2
+  | _ => "bad-request"
+
+def answerMean (toks : List String) : String :=
+  let vs := toks.map String.toNat!
+  if vs.isEmpty then "0/1" else s!"{vs.foldl (·+·) 0}/{vs.length}"
+
+def answerReward (toks : List String) : String :=
+  match toks with
+  | [h] => let k := h.toNat! / 210000
+           if k ≥ 64 then "PANIC" else toString ((5000000000 : Nat) >>> k)
+  | _ => "bad-request"
+
 def answer (cmd : String) (line : String) : String :=
   let toks := (line.trimAscii.toString.splitOn " ").filter (· ≠ "")
   match cmd with
   | "script" => answerScript toks
   | "block" => answerBlock toks
+  | "varint" => answerVarint toks
+  | "record" => answerRecord toks
+  | "blkname" => answerBlkname toks
+  | "compactsize" => answerCompact toks
+  | "xor" => answerXor toks
+  | "mean" => answerMean toks
+  | "basereward" => answerReward toks
+  | "merkle" => match M.rootRust A.sha256d (toks.map parseHex) with | some r => fieldHex r | none => "PANIC"
   | _ => "bad-command"
 
 /-! ### `run`: whole-program scenarios (DESIGN Appendix D) -/
